@@ -476,8 +476,10 @@ def new_rule(ctx, am):
         return normal._Expr().visit(normal._Subst(mapping).visit(normal.clone(e)))
     skip_tests = [(resolved(t), n) for t, n in skip_tests]
     covered = 'set(%s.key_map.values()) - set(%s)' % (lv, ra)
-    allowed_skips = {covered, 'not %s' % qvar}
-    ok = any(src(t) == covered for t, _ in skip_tests)
+    covered_alts = {covered, 'not set(%s.key_map.values()) <= set(%s)' % (lv, ra), 'not set(%s) >= set(%s.key_map.values())' % (ra, lv),
+                    'set(%s.key_map.values()).difference(%s)' % (lv, ra), 'set(%s.key_map.values()).difference(set(%s))' % (lv, ra)}
+    allowed_skips = covered_alts | {'not %s' % qvar}
+    ok = any(src(t) in covered_alts for t, _ in skip_tests)
     for t, s_ in skip_tests:
         r.check(src(t) in allowed_skips, 'batch relate skip `%s` is one of the two structural ones' % src(t), s_, construct=Q,
                 key='extra-skip ' + src(t),
